@@ -8,22 +8,6 @@ Each witness is replayed on the real code by the harness (corpus/C01/*.json) and
 namespace CV.C01.Neg
 open CV.C01
 
-/-! ## extends: the base file is resolved with an unchecked `value.(string)` on `extends.file`
-
-`a` extends `b` in `o.yml`; some service of `o.yml` has `extends: {service: x, file: 3}`.  After `o.yml` is
-loaded, `paths.ResolveRelativePaths` runs `absExtendsPath` on every `services.*.extends.file` and panics
-(key `panic@paths.(*relativePathsResolver).absExtendsPath`). -/
-
-def extWitnessFS : Ext.FS := [("o.yml", .services [("b", .plain), ("c", .ext (.map (.str "b") .other))])]
-def extWitnessSvcs : Ext.Services := [("a", .ext (.map (.str "b") (.str "o.yml")))]
-
-/-- "the extends recursion never panics" is FALSE -/
-theorem extends_never_panics_false :
-    ¬ (∀ (fs : Ext.FS) (main : String) (fuel : Nat) (svcs : Ext.Services) (name : String) (s : String),
-        (Ext.resolve fs main fuel svcs name []).1 ≠ .panic s) := by
-  intro h
-  exact h extWitnessFS "m" 3 extWitnessSvcs "a" "paths.absExtendsPath:value.(string)" (by decide)
-
 /-! ## alias expansion: a merge key that points at an enclosing anchor is followed forever
 
 `checkForCycle` exempts visits "at the exact same path" and any path that contains a merge key; a `<<: *x`
